@@ -98,16 +98,18 @@ def trace_eval_stage(ev, prop, aspects, tier, seed, n_quick=1500, n_thorough=200
     return out, None
 
 
-def trace_large_stage(ev, prop, aspects, tier, seed):
+def trace_large_stage(ev, prop, aspects, tier, seed, part="docs"):
     """A few LARGE documents (arrays of 600/3000 elements, objects with 300/1500 members, strings and names of thousands
     of characters) with index / slice / filter / descendant queries around their ends: recorded and validated by Trace_Eval."""
-    size = 3000 if tier == "thorough" else 600
-    trace = os.path.join(WORK, f"{prop}-large-{os.getpid()}.trace")
+    size = 6000 if tier == "thorough" else 1200
+    if part.startswith("text"):
+        size = 800                              # 6400 blanks per place, 25 000 - 50 000 per query
+    trace = os.path.join(WORK, f"{prop}-large-{part}-{os.getpid()}.trace")
     with open(trace, "w") as f:
-        p = subprocess.run([harness_bin("record"), "large", "--seed", str(seed), "--n", str(size)], stdout=f, stderr=subprocess.PIPE, text=True)
+        p = subprocess.run([harness_bin("record"), "large", "--seed", str(seed), "--n", str(size), "--part", part], stdout=f, stderr=subprocess.PIPE, text=True)
     if p.returncode != 0:
         raise ToolError("record large failed: " + p.stderr[-500:])
-    mism, summary = validate_trace(ev, "Trace_Eval", trace, "Trace_Eval[large]", timeout=2400)
+    mism, summary = validate_trace(ev, "Trace_Eval", trace, f"Trace_Eval[large {part}]", timeout=2400)
     out = []
     for m in mism:
         e, j = m["event"], m["judgement"]
@@ -121,13 +123,13 @@ def trace_large_stage(ev, prop, aspects, tier, seed):
                     "expected_paths": [cps(x) for x in j["expect_paths"]][:20], "actual_paths": [cps(x) for x in e.get("paths", [])][:20], "trace": True})
     ev.evaluations += summary["events"]
     ev.distinct_nontrivial += summary.get("valid_ok", 0)
-    ev.extra["trace_large"] = {"events": summary["events"], "size": size, "valid_and_conforming": summary.get("valid_ok", 0)}
+    ev.extra["trace_large_" + part] = {"events": summary["events"], "size": size, "valid_and_conforming": summary.get("valid_ok", 0)}
     os.remove(trace)
     return out, None
 
 
-def TL(prop, aspects):
-    return lambda ev, tier, seed: trace_large_stage(ev, prop, aspects, tier, seed)
+def TL(prop, aspects, part="docs"):
+    return lambda ev, tier, seed: trace_large_stage(ev, prop, aspects, tier, seed, part)
 
 
 def TE(prop, aspects):
